@@ -28,6 +28,7 @@ type SpecEnv struct {
 	old   *State
 	pkg   *types.Package
 	alloc0 string // allocation watermark "before" (for fresh())
+	cOwn        bool     // evaluating the own contract of a C function (parameters have their declared types)
 	bound       []string // names of the bound variables in scope
 	iter        string // map iterator of the enclosing loop (for visited())
 	iterKeySort string
@@ -100,7 +101,8 @@ func (e *SpecEnv) load(addr string, t types.Type) SVal {
 	term := g.loadCell(e.st, addr, s)
 	// typed memory: an integer cell read through a typed path holds a value of its type.
 	// (only for ground addresses: assumptions cannot mention bound variables)
-	if s == "Int" && !g.M.BV && !isOpaque(t) {
+	// (not in C functions: pointer casts there re-type cells, e.g. an opaque field element seen through a limb_t*)
+	if s == "Int" && !g.M.BV && !isOpaque(t) && (!g.isC || (e.cOwn && isByteType(t))) {
 		ground := true
 		for _, b := range e.bound {
 			if strings.Contains(addr, b) {
@@ -423,6 +425,33 @@ func (e *SpecEnv) sliceOf(base SVal, x *ast.SliceExpr) SVal {
 	return SVal{S: app("mksl", g.ptrAdd(ptr, g.M.ixMulC(lo, es)), g.M.ixSub(hi, lo), g.M.ixSub(cp, lo)), T: types.NewSlice(elem), Sort: "Slice"}
 }
 
+// nonZeroCGlobals: library constants known to be non-zero (the Montgomery representations of 1).
+var nonZeroCGlobals = map[string]bool{"BLS12_381_pR": true, "BLS12_381_rR": true}
+
+// abstractC turns an aggregate C value (Fp2, E1, E2) into its abstract value: a constructor applied to its cells.
+// (On the Go side the same types are single opaque cells holding that abstract value.)
+func (e *SpecEnv) abstractC(v SVal) SVal {
+	g := e.g
+	if v.T == nil || !isComposite(v.T) || v.Addr == "" {
+		return v
+	}
+	n, ok := v.T.(*types.Named)
+	if !ok || n.Obj().Pkg() != cPkg {
+		return v
+	}
+	cell := func(off int64) string { return g.loadCell(e.st, g.ptrAdd(v.Addr, g.M.IxLit(off)), "Int") }
+	fp2 := func(off int64) string { return app("fp2c", cell(off), cell(off+1)) }
+	switch n.Obj().Name() {
+	case "Fp2":
+		return SVal{S: fp2(0), Sort: "Int", T: typInt}
+	case "E1":
+		return SVal{S: app("e1c", cell(0), cell(1), cell(2)), Sort: "Int", T: typInt}
+	case "E2":
+		return SVal{S: app("e2c", fp2(0), fp2(2), fp2(4)), Sort: "Int", T: typInt}
+	}
+	return v
+}
+
 func (e *SpecEnv) unify(a, b *SVal) {
 	// give nil / untyped constants the type of the other operand
 	g := e.g
@@ -460,8 +489,8 @@ func parseBVLit(s string) (*big.Int, bool) {
 
 func (e *SpecEnv) evalBinary(x *ast.BinaryExpr) SVal {
 	g := e.g
-	a := e.eval(x.X)
-	b := e.eval(x.Y)
+	a := e.abstractC(e.eval(x.X))
+	b := e.abstractC(e.eval(x.Y))
 	e.unify(&a, &b)
 	bt := types.Typ[types.Bool]
 	switch x.Op {
@@ -482,6 +511,9 @@ func (e *SpecEnv) evalBinary(x *ast.BinaryExpr) SVal {
 			t = typInt
 		}
 		return SVal{S: g.cmp(x.Op.String(), a.S, b.S, t), T: bt, Sort: "Bool"}
+	}
+	if a.Sort == "Str" && b.Sort == "Str" && x.Op == token.ADD {
+		return SVal{S: app("sconcat", a.S, b.S), T: types.Typ[types.String], Sort: "Str"}
 	}
 	// arithmetic: mathematical in int mode (no wrap), machine in bv mode
 	t := a.T
@@ -604,7 +636,9 @@ func (e *SpecEnv) evalCall(c *ast.CallExpr) SVal {
 		if e.old == nil {
 			specFail("old() not available here")
 		}
-		return e.with(e.old).eval(args[0])
+		// aggregates are turned into their abstract value while still in the old state
+		oe := e.with(e.old)
+		return oe.abstractC(oe.eval(args[0]))
 	case "len":
 		return SVal{S: e.lenOf(e.eval(args[0])), T: typInt, Sort: g.M.IX()}
 	case "cap":
@@ -694,6 +728,27 @@ func (e *SpecEnv) evalCall(c *ast.CallExpr) SVal {
 			return SVal{S: sNot(sEq(r1.Obj, r2.Obj)), T: bt, Sort: "Bool"}
 		}
 		return SVal{S: sOr(sNot(sEq(r1.Obj, r2.Obj)), g.M.ixLe(r1.Hi, r2.Lo), g.M.ixLe(r2.Hi, r1.Lo)), T: bt, Sort: "Bool"}
+	case "cglobal":
+		// cglobal(NAME): the (constant) value of the C library global NAME
+		id, ok := args[0].(*ast.Ident)
+		if !ok {
+			specFail("cglobal(NAME)")
+		}
+		c := g.declare("cglobal_"+sanitize(id.Name), "Int")
+		if nonZeroCGlobals[id.Name] && !g.rangeAssumed["nz:"+id.Name] {
+			g.rangeAssumed["nz:"+id.Name] = true
+			g.prelude = append(g.prelude, "(assert (not (= "+c+" 0)))")
+		}
+		return SVal{S: c, Sort: "Int", T: typInt}
+	case "cglobal2":
+		// cglobal2(NAME): the value of a library constant of type Fp2
+		id, ok := args[0].(*ast.Ident)
+		if !ok {
+			specFail("cglobal2(NAME)")
+		}
+		c0 := g.declare("cglobal_"+sanitize(id.Name)+"_0", "Int")
+		c1 := g.declare("cglobal_"+sanitize(id.Name)+"_1", "Int")
+		return SVal{S: app("fp2c", c0, c1), Sort: "Int", T: typInt}
 	case "visited":
 		// visited(k): key k has already been produced by the map iteration of the enclosing loop
 		if e.iter == "" {
@@ -800,7 +855,7 @@ func (e *SpecEnv) evalCall(c *ast.CallExpr) SVal {
 		if tf, ok := Theory[name]; ok {
 			var as []string
 			for i, a := range args {
-				v := e.eval(a)
+				v := e.abstractC(e.eval(a))
 				if v.IsNil {
 					specFail("nil argument to %s", name)
 				}
@@ -811,6 +866,21 @@ func (e *SpecEnv) evalCall(c *ast.CallExpr) SVal {
 				as = append(as, s)
 			}
 			if tf.HeapArg == "byte" {
+				if (name == "be48" || name == "be32" || name == "be16") && len(as) == 1 && !g.M.BV && (!g.isC || e.cOwn) {
+					// the leading byte of a big-endian string is a byte (the other bytes only enter through a bounded abstract function)
+					ground := true
+					for _, bv := range e.bound {
+						if strings.Contains(as[0], bv) {
+							ground = false
+						}
+					}
+					p0 := app("sl.ptr", as[0])
+					b0 := g.loadCell(e.st, p0, "Int")
+					if ground && !g.rangeAssumed[b0] {
+						g.rangeAssumed[b0] = true
+						g.assume(sAnd(app("<=", "0", b0), app("<=", b0, "255")))
+					}
+				}
 				as = append([]string{g.heapTerm(e.st, g.L.CellSort(types.Typ[types.Uint8]))}, as...)
 			} else if tf.HeapArg != "" {
 				as = append([]string{g.heapTerm(e.st, tf.HeapArg)}, as...)
@@ -934,13 +1004,13 @@ func (e *SpecEnv) EvalRegion(x ast.Expr) (r Region, err error) {
 		if !ok {
 			specFail("assigns *: not a pointer")
 		}
-		return Region{Obj: pObj(p.S), Lo: pOff(p.S), Hi: g.M.ixAdd(pOff(p.S), g.M.IxLit(g.L.Size(et))), T: et, Src: src}, nil
+		return Region{Obj: pObj(p.S), Lo: pOff(p.S), Hi: g.M.ixAdd(pOff(p.S), g.M.IxLit(g.L.Size(et))), T: et, Cells: g.L.Size(et), Src: src}, nil
 	}
 	v := e.eval(x)
 	if v.Addr == "" {
 		specFail("assigns: %s is not a location", src)
 	}
-	return Region{Obj: pObj(v.Addr), Lo: pOff(v.Addr), Hi: g.M.ixAdd(pOff(v.Addr), g.M.IxLit(g.L.Size(v.T))), T: v.T, Src: src}, nil
+	return Region{Obj: pObj(v.Addr), Lo: pOff(v.Addr), Hi: g.M.ixAdd(pOff(v.Addr), g.M.IxLit(g.L.Size(v.T))), T: v.T, Cells: g.L.Size(v.T), Src: src}, nil
 }
 
 
@@ -970,8 +1040,12 @@ func (e *SpecEnv) indexBase(body ast.Expr, k string) string {
 				return
 			}
 			if et, ok := deref(t); ok {
-				if at, ok := et.Underlying().(*types.Array); ok && g.L.Size(at.Elem()) == 1 {
-					found = pOff(base.S)
+				if at, ok := et.Underlying().(*types.Array); ok && !isOpaque(et) {
+					if g.L.Size(at.Elem()) == 1 {
+						found = pOff(base.S)
+					}
+				} else if g.L.Size(et) == 1 {
+					found = pOff(base.S) // C-style pointer to the first of several one-cell elements
 				}
 				return
 			}
@@ -989,4 +1063,10 @@ func (e *SpecEnv) indexBase(body ast.Expr, k string) string {
 		return true
 	})
 	return found
+}
+
+
+func isByteType(t types.Type) bool {
+	b, ok := t.Underlying().(*types.Basic)
+	return ok && b.Kind() == types.Uint8
 }
